@@ -101,13 +101,15 @@ def run(chk):
                 "(Fmt.enc over Blocks.v), and bytes produced by the free encoder with junk (37*off+11 mod 256) in every "
                 "don't-care position fed to _build; the 8 BTS capture blocks: decoded fields equal the layout-driven "
                 "decoder's, consumed = jump-table size, and every byte outside the don't-care positions reproduced by "
-                "re-encoding; file header / table entries against Entry.v; also: blocks built, used (sized / encoded / compared / printed), then edited IN PLACE to another content of the same shape and used again; non-trivial = >=1 item and (gap or >=2 items)")
+                "re-encoding; file header / table entries against Entry.v; also: blocks built, used (sized / encoded / compared / printed), then edited IN PLACE to another content of the same shape and used again; blocks built from arrays with the same values but another memory layout (column-major, strided, reversed, big-endian, read-only, unaligned); non-trivial = >=1 item and (gap or >=2 items)")
     corpus = codec.load_corpus("C06")
     check_cases(chk, corpus)
     n = 1200 if chk.tier == "quick" else 20000
     check_cases(chk, codec.gen_cases(chk, n, "C06"))
     check_cases(chk, codec.large_count_cases(chk))
+    check_cases(chk, codec.threshold_cases(chk))
     codec.check_inplace(chk, "C06", 200 if chk.tier == "quick" else 3000)
+    codec.check_layouts(chk, "C06", 240 if chk.tier == "quick" else 3000)
     check_capture(chk)
     check_container_bytes(chk)
 
